@@ -297,15 +297,87 @@ func (c *Ctx) expiryWriters() map[string][]string {
 					continue
 				}
 				k := cm.Args[len(cm.Args)-2]
-				if cv, ok := k.(*ssa.Const); ok && cv.Value != nil {
-					out[strings.Trim(cv.Value.ExactString(), `"`)] = append(out[strings.Trim(cv.Value.ExactString(), `"`)], c.P.Pos(call.Pos()))
-				} else if fn.Name() != "SetExpiresAt" {
+				if fn.Name() == "SetExpiresAt" {
+					continue
+				}
+				// the token type is a constant here, or a parameter that every caller
+				// (transitively, within the module) binds to a constant
+				ks, ok := c.P.constValues(fn, k, 3)
+				if !ok {
 					out["<non-constant>"] = append(out["<non-constant>"], c.P.Pos(call.Pos()))
+					continue
+				}
+				for _, kv := range ks {
+					out[kv] = append(out[kv], c.P.Pos(call.Pos()))
 				}
 			}
 		}
 	}
 	return out
+}
+
+// constValues resolves v, used in fn, to the set of string constants it can
+// denote: a constant, a conversion of one, or a parameter of fn that every
+// static caller in the module binds to such a value (depth-bounded).
+func (P *Program) constValues(fn *ssa.Function, v ssa.Value, depth int) ([]string, bool) {
+	switch x := v.(type) {
+	case *ssa.Const:
+		if x.Value == nil {
+			return nil, false
+		}
+		return []string{strings.Trim(x.Value.ExactString(), `"`)}, true
+	case *ssa.ChangeType:
+		return P.constValues(fn, x.X, depth)
+	case *ssa.Convert:
+		return P.constValues(fn, x.X, depth)
+	case *ssa.Phi:
+		var out []string
+		for _, e := range x.Edges {
+			vs, ok := P.constValues(fn, e, depth)
+			if !ok {
+				return nil, false
+			}
+			out = append(out, vs...)
+		}
+		return out, true
+	case *ssa.Parameter:
+		if depth == 0 {
+			return nil, false
+		}
+		idx := -1
+		for i, p := range fn.Params {
+			if p == x {
+				idx = i
+			}
+		}
+		if idx < 0 {
+			return nil, false
+		}
+		var out []string
+		n := 0
+		for _, caller := range P.AllFuncs {
+			for _, b := range caller.Blocks {
+				for _, ins := range b.Instrs {
+					ci, ok := ins.(ssa.CallInstruction)
+					if !ok {
+						continue
+					}
+					cm := ci.Common()
+					if cm.IsInvoke() || cm.StaticCallee() != fn || idx >= len(cm.Args) {
+						continue
+					}
+					n++
+					vs, ok := P.constValues(caller, cm.Args[idx], depth-1)
+					if !ok {
+						return nil, false
+					}
+					out = append(out, vs...)
+				}
+			}
+		}
+		return out, n > 0
+	}
+	return nil, false
 }
 
 func c07R2(c *Ctx, readers map[string]bool) {
